@@ -735,7 +735,12 @@ def confirm_with_tlc(b: dict[str, Any], root: str) -> tuple[str | None, str]:
     TLC's `Invariant ... is violated' and its counterexample goes into the replay file."""
     d = os.path.join(root, "confirm-%d" % (abs(hash((b["f"]["prog"], b["f"]["fn"], b["f"]["stage"], b["why"]))) % 10**8))
     write_batch(d, [b["f"]])
-    r = tlc("MC_Ownership", "MC_Ownership.cfg", cwd=d, workers=2, heap="2g", coverage=False, timeout=600)
+    cfg = "MC_Ownership.cfg"
+    if b.get("inv"):      # only the invariant in question (the function may also hit a known finding)
+        cfg = "Confirm.cfg"
+        with open(os.path.join(d, cfg), "w") as f:
+            f.write("SPECIFICATION Spec\nCONSTANT FSel <- AllFuncs\nINVARIANT %s\n" % b["inv"])
+    r = tlc("MC_Ownership", cfg, cwd=d, workers=2, heap="2g", coverage=False, timeout=600)
     shutil.rmtree(d, ignore_errors=True)
     if r.error:
         raise MachineryError("TLC confirm failed: " + r.error)
@@ -850,12 +855,17 @@ def run_probes(d: str, n: int, seed: int, only: str | None = None, module: str =
     env.pop("PYTHONPATH", None)
     env["PYTHONDONTWRITEBYTECODE"] = "1"
     env["PYTHONHASHSEED"] = "0"
-    p = subprocess.run([PY, "c06_runner.py", module, str(n), str(seed)] + ([only] if only else []), cwd=d, env=env,
-                       capture_output=True, text=True, timeout=1200)
+    cmd = [PY, "c06_runner.py", module, str(n), str(seed)] + ([only] if only else [])
+    try:
+        p = subprocess.run(cmd, cwd=d, env=env, capture_output=True, text=True, timeout=600)
+        out, err, rcode = p.stdout, p.stderr, p.returncode
+    except subprocess.TimeoutExpired as e:   # a probe that never returns is as bad as one that crashes
+        out = e.stdout.decode() if isinstance(e.stdout, bytes) else (e.stdout or "")
+        err, rcode = "timeout: the child did not finish within 600s", "timeout"
     results: dict[tuple[str, str], dict[str, Any]] = {}
     begun = None
     done = False
-    for line in p.stdout.splitlines():
+    for line in out.splitlines():
         if line.startswith("BEGIN "):
             begun = line[6:]
         elif line.startswith("RESULT "):
@@ -864,7 +874,7 @@ def run_probes(d: str, n: int, seed: int, only: str | None = None, module: str =
             begun = None
         elif line == "DONE":
             done = True
-    return dict(results=results, rc=p.returncode, died_in=None if done else (begun or "?"), stderr=p.stderr[-800:])
+    return dict(results=results, rc=rcode, died_in=None if done else (begun or "?"), stderr=err[-800:])
 
 
 # =========================================================================== main
@@ -961,19 +971,25 @@ def main(argv: list[str]) -> int:
     # ---- 3. TLC: every feasible path of every function, both stages
     t1 = time.time()
     nb = 12 if tier == "quick" else 32
-    res = run_batches(funcs, root, "corpus", nb=nb, workers=2, par=8)
+    # identical records (the same helper / __top_level__ code in many programs) are explored once
+    reps: dict[str, dict[str, Any]] = {}
+    for f in funcs:
+        rep = reps.setdefault(f["tla"], f)
+        rep["dups"] = rep.get("dups", 0) + 1
+    ufuncs = list(reps.values())
+    res = run_batches(ufuncs, root, "corpus", nb=nb, workers=2, par=8)
     # TLC's -coverage is far too costly on the big data modules (it instruments every literal), so the
     # per-action coverage is measured on a small batch: for every kind of op the smallest function
     # containing it, plus the first functions of refcount.test
     kinds = ("goto", "unreach", "branch", "ret", "inc", "dec", "assign", "lev", "addr", "unborrow", "tget", "op")
     pick: dict[int, dict[str, Any]] = {}
     for kd in kinds:
-        have = [f for f in funcs if ('k|->"%s"' % kd) in f["tla"]]
+        have = [f for f in ufuncs if ('k|->"%s"' % kd) in f["tla"]]
         if kd == "unreach":   # reachable in the machine only after an op whose failure is not a literal
             have = [f for f in have if any(nm == "RaiseStandardError" for blk in f["meta"] for nm, _ in blk)] or have
         for f0 in sorted(have, key=lambda f: (f["nops"], f["prog"], f["fn"], f["stage"]))[:6]:
             pick[id(f0)] = f0
-    for f in [f for f in funcs if f["prog"].startswith("refcount.test") and f["nops"] < 40][:50]:
+    for f in [f for f in ufuncs if f["prog"].startswith("refcount.test") and f["nops"] < 40][:50]:
         pick[id(f)] = f
     cres = run_batches(list(pick.values()), root, "cover", nb=1, workers=2, coverage=True)
     pres = run_batches(pex["funcs"], root, "probes", nb=2, workers=2, cfg="Gen_Ownership_Exits.cfg", coverage=False)
@@ -1002,9 +1018,10 @@ def main(argv: list[str]) -> int:
     for key in sorted(by_key):
         bs = by_key[key]
         b = min(bs, key=lambda x: (x["f"]["nops"], x["f"]["prog"], x["f"]["stage"]))
-        inv_counts[b["inv"]] = inv_counts.get(b["inv"], 0) + len(bs)
+        affected = sum(x["f"].get("dups", 1) for x in bs)
+        inv_counts[b["inv"]] = inv_counts.get(b["inv"], 0) + affected
         if key in v.known:
-            for _ in bs:
+            for _ in range(affected):
                 v.violation(key, None)
             continue
         new_static += 1
@@ -1019,23 +1036,32 @@ def main(argv: list[str]) -> int:
         v.violation(key, {"kind": "ir", "prog": b["f"]["prog"], "fn": b["f"]["fn"], "stage": b["f"]["stage"],
                           "block": b["blk"], "op_index": b["idx"], "op": opname[0], "source_line": opname[1],
                           "value": b["wv"], "value_name": (b["f"]["vals"][b["wv"] - 1] if b["wv"] else ""),
-                          "reason": b["why"], "invariant": b["inv"], "functions_affected": len(bs),
+                          "reason": b["why"], "invariant": b["inv"], "functions_affected": affected,
                           "ir": ir_text(b["f"]["prog"], b["f"]["stage"], b["f"]["fn"], root),
                           "tlc_counterexample": trace},
                     "TLC: invariant %s violated (%s) in %s %s [%s IR] at block L%d op %d (%s, line %d); %d function records affected"
-                    % (b["inv"], b["why"], b["f"]["prog"], b["f"]["fn"], b["f"]["stage"], b["blk"] - 1, b["idx"], opname[0], opname[1], len(bs)))
+                    % (b["inv"], b["why"], b["f"]["prog"], b["f"]["fn"], b["f"]["stage"], b["blk"] - 1, b["idx"], opname[0], opname[1], affected))
 
     # ---- 5. dynamic binding: machine predictions vs the compiled extension vs CPython
     exits: dict[str, set[str]] = {}
+    cut = {b["f"]["fn"] for b in pres["bad"]}     # paths of these functions end in a bad state: no prediction
     for (prog, stage, fn), kinds in pres["ends"].items():
-        if stage == "final":
+        if stage == "final" and fn not in cut:
             exits[fn] = kinds
     dyn_compared = 0
     other_diffs: list[str] = []
     dyn_samples: list[Any] = []
     drift: list[str] = []
     for o in opts:
-        builds[o].result()
+        try:
+            builds[o].result()
+        except MachineryError as e:
+            if not v.violations:
+                raise
+            # the IR is already known to be broken; that the C compiler rejects the result is a consequence
+            v.notes.append("dynamic binding skipped at -O%s: %s" % (o, str(e)[:300]))
+            print("NOTE: dynamic binding skipped at -O%s (build failed, violations already reported)" % o, flush=True)
+            continue
         d = os.path.join(root, "dyn-O" + o)
         n = 30 if tier == "quick" else 200
         comp = run_probes(d, n, seed)
@@ -1111,16 +1137,13 @@ def main(argv: list[str]) -> int:
                     if need not in ek:
                         drift.append("%s: observed %s but the machine's paths of %s end in %s" % (ck, out, rc_["fn"], sorted(ek)))
     build_pool.shutdown()
-    if drift:
+    if drift and not v.violations:
         raise MachineryError("model drift (the machine does not describe the compiled code): " + "; ".join(drift[:5]))
-    if dyn_compared == 0:
+    if dyn_compared == 0 and not v.violations:
         raise MachineryError("the dynamic binding step did not run")
 
     # ---- 6. evidence
-    distinct = {}
-    for f in funcs:
-        distinct.setdefault(hash(f["tla"]), f)
-    n_nontrivial = sum(1 for f in distinct.values() if nontrivial(f))
+    n_nontrivial = sum(1 for f in ufuncs if nontrivial(f))
     progs = sorted({f["prog"] for f in funcs})
     sample_f = next((f for f in funcs if f["prog"].startswith("refcount.test") and nontrivial(f)), funcs[0])
     coverage = {
@@ -1133,7 +1156,7 @@ def main(argv: list[str]) -> int:
                 "distinct = distinct exported records; non-trivial = the record contains a branch and at least one inc_ref/dec_ref. "
                 "quick tier: all irbuild-*/refcount/exceptions/lowering/opt programs + run-generators/run-exceptions + a "
                 "seeded %d%% sample of the other run-*.test programs; thorough: the whole corpus" % int(RUN_SAMPLE * 100),
-        "function_records_checked": n_corpus, "distinct_function_records": len(distinct),
+        "function_records_checked": n_corpus, "distinct_function_records": len(ufuncs),
         "ir_ops": sum(f["nops"] for f in funcs),
         "programs": len(progs), "programs_available": sel_stats["available"], "programs_not_compiling": ex["stats"]["failed"],
         "compiler_crashes_on_corpus_programs": [list(c) for c in crashes][:10],
